@@ -213,6 +213,8 @@ class Item:
         self.keep_vis = False
         self.no_derives = False
         self.keep_variants = None
+        self.keep_fields = None
+        self.add_fields = []
         self.pre = []
         self.line = line
         self.fragment = None   # (mode, anchor): 'block-after' | 'head-until'
@@ -291,10 +293,11 @@ def parse_sidecar(path):
                 item.subs.append((m.group(1), int(m.group(2)), 'lit', _unq(m.group(3)), _unq(m.group(4))))
                 cur = None
             elif key == 'resub':
-                m = re.match(r'(\S+)\s+(\d+)\s+/((?:[^/\\]|\\.)*)/\s*=>\s*' + _BT + r'\s*$', rest)
+                # optional trailing: default `X` = what an unmatched optional group expands to
+                m = re.match(r'(\S+)\s+(\d+)\s+/((?:[^/\\]|\\.)*)/\s*=>\s*' + _BT + r'(?:\s+default\s+' + _BT + r')?\s*$', rest)
                 if not m:
                     raise SpecError('%s:%d: bad resub' % (path, ln))
-                item.subs.append((m.group(1), int(m.group(2)), 're', m.group(3), _unq(m.group(4))))
+                item.subs.append((m.group(1), int(m.group(2)), 're' if m.group(5) is None else ('re', _unq(m.group(5))), m.group(3), _unq(m.group(4))))
                 cur = None
             elif key == 'sig':
                 m = re.match(r'(\S+)\s+' + _BT + r'\s*=>\s*' + _BT + r'\s*$', rest)
@@ -304,6 +307,12 @@ def parse_sidecar(path):
                 cur = None
             elif key == 'keep-variants':
                 item.keep_variants = rest.split()
+                cur = None
+            elif key == 'keep-fields':
+                item.keep_fields = rest.split()
+                cur = None
+            elif key == 'add-field':
+                item.add_fields.append(rest)
                 cur = None
             elif key == 'no-derives':
                 item.no_derives = True
@@ -569,11 +578,8 @@ def build(repo, sidecar_path, extra_spec=None):
             # R7 for enums: keep only the variants the extracted functions name; every other variant
             # is represented by one catch-all (the extracted code treats them uniformly via `_`)
             bo = body_open(text, 0)
-            inner = text[bo + 1:text.rindex('}')]
+            inner = re.sub(r'//[^\n]*', '', text[bo + 1:text.rindex('}')])
             parts, depth, cur_ = [], 0, ''
-            for k_, a_, b_ in tokens(inner):
-                pass
-            i_ = 0
             for ch in inner:
                 if ch in '([{<':
                     depth += 1
@@ -603,6 +609,44 @@ def build(repo, sidecar_path, extra_spec=None):
             text = text[:bo + 1] + '\n' + ',\n'.join(kept) + ',\n    VerifOtherVariants,\n}'
             g.rewrites.append({'tag': 'R7e', 'where': where, 'before': 'variants ' + ', '.join(dropped),
                                'after': 'single catch-all variant VerifOtherVariants', 'count': len(dropped)})
+        if item.keep_fields is not None and item.kind == 'struct':
+            # R7 for structs: keep only the fields the extracted functions touch (all other fields
+            # are dropped: nothing extracted reads or writes them); ghost fields may be added
+            bo = body_open(text, 0)
+            inner = re.sub(r'//[^\n]*', '', text[bo + 1:text.rindex('}')])
+            parts, depth, cur_ = [], 0, ''
+            prev = ''
+            for ch in inner:
+                if ch in '([{<':
+                    depth += 1
+                elif ch in ')]}':
+                    depth -= 1
+                elif ch == '>' and prev != '-' and prev != '=':
+                    depth -= 1
+                if ch == ',' and depth == 0:
+                    parts.append(cur_)
+                    cur_ = ''
+                else:
+                    cur_ += ch
+                prev = ch
+            if cur_.strip():
+                parts.append(cur_)
+            kept, dropped = [], []
+            for pt in parts:
+                body_nc = '\n'.join(l for l in pt.split('\n') if not l.strip().startswith('//')).strip()
+                m_ = re.match(r'(?:#\[[^\]]*\]\s*)*(?:pub(?:\([^)]*\))?\s+)?([A-Za-z_][A-Za-z0-9_]*)\s*:', body_nc)
+                if not m_:
+                    continue
+                if m_.group(1) in item.keep_fields:
+                    kept.append('    ' + body_nc)
+                else:
+                    dropped.append(m_.group(1))
+            missing = [v for v in item.keep_fields if not any(re.search(r'\b' + re.escape(v) + r'\s*:', k) for k in kept)]
+            if missing:
+                raise ExtractionLost('%s: fields not found: %s' % (where, missing))
+            text = text[:bo + 1] + '\n' + ',\n'.join(kept + ['    ' + a for a in item.add_fields]) + ',\n}'
+            g.rewrites.append({'tag': 'R7', 'where': where, 'before': 'fields ' + ', '.join(dropped),
+                               'after': 'dropped' + ('; added: ' + '; '.join(item.add_fields) if item.add_fields else ''), 'count': len(dropped)})
         # -- rewrites on the repository text
         if item.kind == 'fn':
             text = remove_log_statements(text, g.rewrites, where)
@@ -618,7 +662,16 @@ def build(repo, sidecar_path, extra_spec=None):
                                          % (where, tag, count, frm, c))
                 text = text.replace(frm, to)
             else:
-                text, c = re.subn(frm, to, text, flags=re.S)
+                if isinstance(k, tuple):
+                    dflt = k[1]
+                    def _exp(m_, to=to, dflt=dflt):
+                        out_ = to
+                        for gi in range(1, (m_.re.groups or 0) + 1):
+                            out_ = out_.replace('\\%d' % gi, m_.group(gi) if m_.group(gi) is not None else dflt)
+                        return out_
+                    text, c = re.subn(frm, _exp, text, flags=re.S)
+                else:
+                    text, c = re.subn(frm, to, text, flags=re.S)
                 if c != count:
                     raise ExtractionLost('%s: rewrite %s expected %d match(es) of /%s/, found %d'
                                          % (where, tag, count, frm, c))
